@@ -202,15 +202,12 @@ func aliasFlag(shared bool) string {
 	return "f"
 }
 
-// prebuildViews builds, for every backing-array id that occurs more than once among the inner lists
-// of a list of lists, the longest occurrence first, so that the shorter ones become real views of
-// the same array (rt.Build fills only the cells of the first occurrence it meets).
-func prebuildViews(c *Ctx, inner reflect.Type, outer *SExp) {
-	if !outer.IsL {
-		return
-	}
+// buildLongestFirst builds, for every backing-array id among the candidate slice expressions, the
+// longest occurrence first, so that the shorter ones become real views of the same array (rt.Build
+// fills only the cells of the first occurrence it meets).
+func buildLongestFirst(c *Ctx, t reflect.Type, cands []*SExp) {
 	longest := map[string]*SExp{}
-	for _, e := range outer.List[3:] {
+	for _, e := range cands {
 		if e.IsL && e.Head() == "sl" {
 			id := e.List[1].Atom
 			if o, ok := longest[id]; !ok || len(e.List) > len(o.List) {
@@ -218,11 +215,37 @@ func prebuildViews(c *Ctx, inner reflect.Type, outer *SExp) {
 			}
 		}
 	}
-	for _, e := range outer.List[3:] {
+	for _, e := range cands {
 		if e.IsL && e.Head() == "sl" && longest[e.List[1].Atom] == e {
-			c.Build(inner, e)
+			c.Build(t, e)
 		}
 	}
+}
+
+func elemsOf(l *SExp) []*SExp {
+	if l.IsL && l.Head() == "sl" {
+		return l.List[3:]
+	}
+	return nil
+}
+
+// prebuildViews: the inner lists of a list of lists may be views of one backing array.
+func prebuildViews(c *Ctx, inner reflect.Type, outer *SExp) {
+	buildLongestFirst(c, inner, elemsOf(outer))
+}
+
+// preViews: when the element type E is itself a slice type, the elements of the list arguments and the
+// item arguments of one op may be views of one backing array (same start, different lengths).
+func preViews[E any](c *Ctx, lists []*SExp, items ...*SExp) {
+	t := reflect.TypeOf((*E)(nil)).Elem()
+	if t.Kind() != reflect.Slice {
+		return
+	}
+	cands := append([]*SExp(nil), items...)
+	for _, l := range lists {
+		cands = append(cands, elemsOf(l)...)
+	}
+	buildLongestFirst(c, t, cands)
 }
 
 func build[T any](c *Ctx, a *SExp) T {
@@ -256,6 +279,7 @@ func scriptPred[E any](bits []bool, log *[]string) func(E) bool {
 
 func Sort[E any](f func([]E) []E, less func(a, b E) bool) OpFunc {
 	return func(c *Ctx, a []*SExp) string {
+		preViews[E](c, a[:1])
 		l := build[[]E](c, a[0])
 		out := f(l)
 		return canonRuns(out, less) + ";" + nilness(out == nil) + "," + canonRuns(l, less) + "," + aliasFlag(overlap(out, l))
@@ -273,6 +297,7 @@ func Keys[K comparable, V any](f func(map[K]V) []K) OpFunc {
 // Min serves the list forms of min and max.
 func Min[E any](f func([]E, E) E) OpFunc {
 	return func(c *Ctx, a []*SExp) string {
+		preViews[E](c, a[:1], a[1])
 		l := build[[]E](c, a[0])
 		d := build[E](c, a[1])
 		m := f(l, d)
@@ -283,6 +308,7 @@ func Min[E any](f func([]E, E) E) OpFunc {
 // Min2 serves the two-value forms of min and max.
 func Min2[E any](f func(E, E) E) OpFunc {
 	return func(c *Ctx, a []*SExp) string {
+		preViews[E](c, nil, a[0], a[1])
 		x := build[E](c, a[0])
 		y := build[E](c, a[1])
 		m := f(x, y)
@@ -294,6 +320,7 @@ func Min2[E any](f func(E, E) E) OpFunc {
 
 func Contains[E any](f func([]E, E) bool) OpFunc {
 	return func(c *Ctx, a []*SExp) string {
+		preViews[E](c, a[:1], a[1])
 		l := build[[]E](c, a[0])
 		x := build[E](c, a[1])
 		return Bool(f(l, x)) + ";"
@@ -302,6 +329,7 @@ func Contains[E any](f func([]E, E) bool) OpFunc {
 
 func Unique[E any](f func([]E) []E, useMap bool) OpFunc {
 	return func(c *Ctx, a []*SExp) string {
+		preViews[E](c, a[:1])
 		l := build[[]E](c, a[0])
 		out := f(l)
 		if useMap {
@@ -323,6 +351,7 @@ func Set[E comparable](f func([]E) map[E]struct{}) OpFunc {
 
 func UnionL[E any](f func(a, b []E) []E) OpFunc {
 	return func(c *Ctx, a []*SExp) string {
+		preViews[E](c, a[:2])
 		this := build[[]E](c, a[0])
 		that := build[[]E](c, a[1])
 		out := f(this, that)
@@ -333,6 +362,7 @@ func UnionL[E any](f func(a, b []E) []E) OpFunc {
 
 func IntersectL[E any](f func(a, b []E) []E) OpFunc {
 	return func(c *Ctx, a []*SExp) string {
+		preViews[E](c, a[:2])
 		this := build[[]E](c, a[0])
 		that := build[[]E](c, a[1])
 		out := f(this, that)
@@ -363,6 +393,7 @@ func IntersectM[K comparable](f func(a, b map[K]struct{}) map[K]struct{}) OpFunc
 
 func Filter[E any](f func(func(E) bool, []E) []E) OpFunc {
 	return func(c *Ctx, a []*SExp) string {
+		preViews[E](c, a[:1])
 		l := build[[]E](c, a[0])
 		var log []string
 		out := f(scriptPred[E](bitsOf(a[1]), &log), l)
@@ -372,6 +403,7 @@ func Filter[E any](f func(func(E) bool, []E) []E) OpFunc {
 
 func TakeWhile[E any](f func(func(E) bool, []E) []E) OpFunc {
 	return func(c *Ctx, a []*SExp) string {
+		preViews[E](c, a[:1])
 		l := build[[]E](c, a[0])
 		var log []string
 		out := f(scriptPred[E](bitsOf(a[1]), &log), l)
@@ -382,6 +414,7 @@ func TakeWhile[E any](f func(func(E) bool, []E) []E) OpFunc {
 // AllAny serves all and any.
 func AllAny[E any](f func(func(E) bool, []E) bool) OpFunc {
 	return func(c *Ctx, a []*SExp) string {
+		preViews[E](c, a[:1])
 		l := build[[]E](c, a[0])
 		var log []string
 		r := f(scriptPred[E](bitsOf(a[1]), &log), l)
@@ -407,6 +440,7 @@ func scriptFn[E, R any](rs []R, log *[]string) func(E) R {
 
 func Fmap[E, R any](f func(func(E) R, []E) []R) OpFunc {
 	return func(c *Ctx, a []*SExp) string {
+		preViews[E](c, a[:1])
 		l := build[[]E](c, a[0])
 		rs := build[[]R](c, a[1])
 		var log []string
@@ -428,6 +462,7 @@ func FmapS[R any](f func(func(rune) R, string) []R) OpFunc {
 
 func Join[E any](f func([][]E) []E) OpFunc {
 	return func(c *Ctx, a []*SExp) string {
+		preViews[E](c, elemsOf(a[0]))
 		prebuildViews(c, reflect.TypeOf((*[]E)(nil)).Elem(), a[0])
 		ll := build[[][]E](c, a[0])
 		out := f(ll)
